@@ -8,6 +8,7 @@ CONSTANTS
   ValsHi <- MCHi
   Kinds = {"arch", "param"}
   MaxDec = 4
+  MaxDecHi = 4
   MaxOps = 7
 INVARIANT GramDef
 INVARIANT IsInverse
